@@ -56,7 +56,7 @@ def cparse_case(b, res):
     return "(%s, %s, %s)" % (cbytes(b), ctable(res["urls"]), o)
 
 def cuuid(hx):
-    b = bytes.fromhex(hx)
+    b = bytes.fromhex(hx[2:] if hx.startswith("s:") else hx)
     return "{| packed := %s; uty := %d |}" % (cbytes(b), 1 if len(b) == 2 else 2)
 
 U16 = {"inc": "IncSvc16", "comp": "CompSvc16", "sol": "Sollicit16"}
@@ -311,6 +311,24 @@ URI_FRAGS = [b"//", b"//", b"a", b"b.c", b"[", b"]", b"[::1]", b"[v1.x]", b"?", 
              "＃".encode(), b"\x00", b"\xff", b"\xc3", b"\xe2\x82", b"1", b":80", b"x", b"//[", b"////"]
 
 
+# Structured corner values of the UUID space (wire order = little-endian).
+BASE12 = bytes.fromhex("fb349b5f8000008000100000")          # xxxxxxxx-0000-1000-8000-00805F9B34FB without xxxxxxxx
+UUID16_CORNERS = [bytes.fromhex(h) for h in ("0000", "ffff", "0f18", "0018", "002a", "aafe", "0100")]
+UUID128_CORNERS = (
+    [BASE12 + u + b"\x00\x00" for u in UUID16_CORNERS]                                         # 0000xxxx-… Base-UUID aliases
+    + [BASE12 + bytes.fromhex(h) for h in ("78563412", "00000100", "ffffffff", "0f180100", "000000ff")]   # 32-bit aliases
+    + [bytes(16), b"\xff" * 16]
+    + [bytes(c ^ 0x01 if i == j else c for i, c in enumerate(BASE12 + b"\x0f\x18\x00\x00")) for j in range(16)])   # one byte off 0000180F-…
+
+
+def uuid128(rng):
+    return rng.choice(UUID128_CORNERS) if rng.random() < 0.45 else rand_bytes(rng, 16)
+
+
+def uuid16(rng):
+    return rng.choice(UUID16_CORNERS) if rng.random() < 0.35 else rand_bytes(rng, 2)
+
+
 def rand_bytes(rng, n):
     return bytes(rng.choice([rng.randrange(256), rng.randrange(256), 0, 1, 3, 4, 0xFF, 0x80]) for _ in range(n))
 
@@ -333,6 +351,10 @@ def rand_payload(rng, tag):
         p = bytes([rng.randrange(5)]) + p[1:]
     if tag == 0x1B and n >= 7 and rng.random() < 0.7:
         p = p[:6] + bytes([rng.randrange(2)]) + p[7:]
+    if tag in (0x06, 0x07, 0x15, 0x21) and n >= 16 and rng.random() < 0.8:
+        p = uuid128(rng) + p[16:]
+    if tag in (0x02, 0x03, 0x14, 0x16) and n >= 2 and rng.random() < 0.5:
+        p = uuid16(rng) + p[2:]
     return p
 
 
@@ -400,14 +422,14 @@ def gen_call(rng, k):
     if k == "Flags":
         return {"k": k, "a": [rb(), rb(), rb(), rb()]}
     if k == "Uuid16s":
-        us = [hx(rng, 2) for _ in range(rng.choice([0, 1, 1, 2, 3, 5]))]
+        us = [uuid16(rng).hex() for _ in range(rng.choice([0, 1, 1, 2, 3, 5]))]
         if rng.random() < 0.1:
-            us.append(hx(rng, 16))
+            us.append(uuid128(rng).hex())
         return {"k": k, "a": [rng.choice(["inc", "comp", "sol"]), us]}
     if k == "Uuid128s":
-        us = [hx(rng, 16) for _ in range(rng.choice([0, 1, 1, 1, 2]))]
+        us = [rng.choice(["", "s:"]) + uuid128(rng).hex() for _ in range(rng.choice([0, 1, 1, 1, 2]))]
         if rng.random() < 0.1:
-            us.append(hx(rng, 2))
+            us.append(uuid16(rng).hex())
         return {"k": k, "a": [rng.choice(["inc", "comp", "sol"]), us]}
     if k in ("ShortName", "CompleteName"):
         return {"k": k, "a": [hx(rng, rng.choice([0, 1, 4, 8, 20, 29, 30]))]}
@@ -420,7 +442,7 @@ def gen_call(rng, k):
         v = lambda: rng.choice([0, 6, 0x0C80, 0xFFFF, 0xFFFF, 0x10000, rng.randrange(65536)])
         return {"k": k, "a": [v(), v()]}
     if k == "SvcData16":
-        return {"k": k, "a": [hx(rng, 2) if rng.random() < 0.92 else hx(rng, 16), hx(rng, rng.choice([0, 1, 5, 20, 27]))]}
+        return {"k": k, "a": [uuid16(rng).hex() if rng.random() < 0.92 else uuid128(rng).hex(), hx(rng, rng.choice([0, 1, 5, 20, 27]))]}
     if k in ("PublicTarget", "RandomTarget"):
         return {"k": k, "a": [[hx(rng, 6) for _ in range(rng.choice([0, 1, 1, 2, 3, 4, 5]))]]}
     if k == "Appearance":
@@ -433,7 +455,7 @@ def gen_call(rng, k):
     if k == "LeRole":
         return {"k": k, "a": [rng.randrange(6)]}
     if k == "SvcData128":
-        return {"k": k, "a": [hx(rng, 16) if rng.random() < 0.92 else hx(rng, 2), hx(rng, rng.choice([0, 1, 5, 13]))]}
+        return {"k": k, "a": [rng.choice(["", "s:"]) + uuid128(rng).hex() if rng.random() < 0.92 else uuid16(rng).hex(), hx(rng, rng.choice([0, 1, 5, 13]))]}
     if k == "Uri":
         return {"k": k, "a": [rand_url(rng)]}
     if k == "LeFeatures":
@@ -498,7 +520,8 @@ def run(ctx):
         "hand-written model coq/theories/C15/Model.v tied to whad/ble/profile/advdata.py by the correspondence of this run (outcome class + class id, .type, exposed values, bytes of every record)",
         "urllib.parse (urlparse + _replace(scheme='').geturl()) is a universally quantified function parameter of the model: the theorems assume nothing about it; its results on the run's inputs are recorded from the implementation and fed to the model",
         "Lib/Utf8.v = CPython's strict UTF-8 codec: compared with CPython on all 1- and 2-byte strings exhaustively and on sampled longer strings / code points",
-        "struct.pack/unpack('<BB','<H','<HH','<I'), whad UUID(bytes|int) and BDAddress.from_bytes as transcribed in Model.v (exercised by every case)",
+        "struct.pack/unpack('<BB','<H','<HH','<I') and BDAddress.from_bytes as transcribed in Model.v (exercised by every case)",
+        "whad UUID(bytes|int): uuid_of_bytes / uuid_of_int assume UUID(b).packed == b with type 16-bit for 2 bytes and 128-bit for 16 bytes (same for the text and int forms); this obligation is checked on the implementation every run over the corner values of the UUID space (Base-UUID aliases, 32-bit aliases, all-zero, all-FF, one-byte neighbours) and random values",
         "'b0 | b1<<8 | b2<<16' on bytes modelled as b0 + 256 b1 + 65536 b2",
     ]
     ctx.assumptions = [
@@ -544,6 +567,22 @@ def run(ctx):
     for pre in rows_in:
         for x in range(256):
             addp(pre + bytes([x]), "exh2" if len(pre) == 1 else "len3")
+    # structured corner values of the UUID space in every UUID-bearing record, both directions
+    for u in UUID128_CORNERS:
+        for t in (0x06, 0x07, 0x15):
+            addp(bytes([17, t]) + u, "uuid-corner")
+        addp(bytes([18, 0x21]) + u + b"\x2a", "uuid-corner")
+        addp(bytes([2, 0x01, 0x06, 17, 0x07]) + u + bytes([3, 0x03]) + UUID16_CORNERS[len(u) % 7], "uuid-corner")
+    for u in UUID16_CORNERS:
+        for t in (0x02, 0x03, 0x14, 0x16):
+            addp(bytes([5, t]) + u + UUID16_CORNERS[0], "uuid-corner")
+    for n, u in enumerate(UUID128_CORNERS):
+        for form in ("", "s:"):
+            addb([{"k": "Uuid128s", "a": [("inc", "comp", "sol")[n % 3], [form + u.hex()]]}], "uuid-corner")
+            addb([{"k": "SvcData128", "a": [form + u.hex(), "2a"]}], "uuid-corner")
+    for u in UUID16_CORNERS:
+        addb([{"k": "Uuid16s", "a": ["comp", [u.hex(), UUID16_CORNERS[1].hex()]]}], "uuid-corner")
+        addb([{"k": "SvcData16", "a": [u.hex(), "2a"]}], "uuid-corner")
     for _ in range(20000 if T else 1500):
         addp(rand_tlv(rng), "tlv")
     # constructor-call lists
@@ -569,6 +608,9 @@ def run(ctx):
     for i, m in enumerate(parse_meta):
         if m["kind"] == "corpus" and len(parse_in[i]) <= 31:
             scan_in += [[k, parse_in[i].hex()] for k in (0, 1, 2)]
+    for i, m in enumerate(parse_meta):
+        if m["kind"] == "uuid-corner":
+            scan_in.append([i % 3, parse_in[i].hex()])
     pool = [i for i, m in enumerate(parse_meta) if m["kind"] in ("tlv", "mutation", "len3") and len(parse_in[i]) <= 31]
     for i in rng.sample(pool, min(len(pool), 3000 if T else 300)):
         scan_in.append([rng.randrange(3), parse_in[i].hex()])
@@ -611,6 +653,10 @@ def run(ctx):
         enc_in.append([rng.choice([rng.randrange(0x80), rng.randrange(0x800), rng.randrange(0x10000),
                                    rng.randrange(0x110000), 0xD800 + rng.randrange(0x800)])
                        for _ in range(rng.choice([1, 2, 3]))])
+    # the UUID class on its own, over the corner values and random ones (the model's uuid_of_bytes / uuid_of_int)
+    uuid_in = UUID128_CORNERS + UUID16_CORNERS + [rand_bytes(rng, 16) for _ in range(300 if T else 40)] \
+        + [rand_bytes(rng, 2) for _ in range(100 if T else 20)]
+    rx = C.run_impl("C15.py", {"uuid": [b.hex() for b in uuid_in]})["uuid"]
     ru = C.run_impl("C15.py", {"utf8": {"rows": True, "decode": [b.hex() for b in dec_in], "encode": enc_in}})["utf8"]
     # exhaustive length 3 on the implementation only (thorough): 16.7M strings, 16 processes
     exh = None
@@ -667,6 +713,15 @@ def run(ctx):
             report(cls, "on_device_found raised %s during a sequence of advertisements (step %d)" % (last["exc"], len(rq[i]["steps"])),
                    {"op": "seq", "case": c2, "kind": "systematic" if i < n_seq_sys else "random"},
                    expected="no exception for any sequence", observed=last["exc"])
+    # UUID constructor obligation: UUID(b) keeps b as its packed form, 2 bytes -> 16-bit, 16 bytes -> 128-bit,
+    # whatever form (bytes, text, int) it is built from
+    for b, r in zip(uuid_in, rx):
+        want = [b.hex(), 1 if len(b) == 2 else 2]
+        for form, got in sorted(r.items()):
+            if got != want:
+                report("uuid-constructor", "UUID(%s form of %s) gives %r: a %d-bit UUID must keep its %d bytes as packed form and its type "
+                       "(the records 0x02-0x07, 0x14-0x16, 0x21 are built on this)" % (form, b.hex(), got, 8 * len(b), len(b)),
+                       {"op": "uuid", "hex": b.hex(), "form": form}, expected=want, observed=got)
     # API sequences: every parse of x returns what a parse of x returns in a clean process, whatever
     # was done to records returned by earlier parses; a list nobody edited serialises as in the clean process
     n_api_parse = n_api_edits = n_api_ser = 0
@@ -801,6 +856,9 @@ def run(ctx):
     eterms = ["(%s, %s)" % (cints(c), C.copt(ru["encode"][i], lambda h: cbytes(bytes.fromhex(h)))) for i, c in enumerate(enc_in)]
     bad_r, logs_r = C.run_cases(PID, "utf8rows", PRE, "N * list N", rows, "check_utf8_row", shard=32)
     bad_d, logs_d = C.run_cases(PID, "utf8dec", PRE, "bytes * option text", dterms, "check_utf8_decode", shard=1600)
+    uterms = ["(%s, %s)" % (cbytes(b), "None" if not isinstance(r["bytes"], list) else "(Some (%s, %d))" % (cbytes(bytes.fromhex(r["bytes"][0])), r["bytes"][1]))
+              for b, r in zip(uuid_in, rx)]
+    bad_u, logs_u = C.run_cases(PID, "uuid", PRE, "bytes * option (bytes * N)", uterms, "check_uuid_bytes", shard=600)
     bad_e, logs_e = C.run_cases(PID, "utf8enc", PRE, "text * option bytes", eterms, "check_utf8_encode", shard=600)
     ctx.notes += logs_s[:2] + logs_p[:2] + logs_w[:2] + logs_b[:2] + logs_r[:1] + logs_d[:1] + logs_e[:1]
     ctx.log("correspondence: api sequences %d/%d bad, scan sequences %d/%d bad, parse %d/%d bad (%d individual cases + %d rows of 256), build %d/%d bad, utf8 rows %d/256, decode %d/%d, encode %d/%d bad"
@@ -874,9 +932,14 @@ def run(ctx):
                                  "utf8_rows_bad": len(bad_r), "utf8_decode_bad": len(bad_d), "utf8_encode_bad": len(bad_e)}
 
     # ---- verdict ------------------------------------------------------------------------------
-    if (bad_a or bad_s or bad_p or bad_b or bad_r or bad_d or bad_e or not proofs_ok) and not ctx.violations:
+    ctx.cov["uuid_constructor_obligation"] = {"values": len(uuid_in), "corner_values": len(UUID128_CORNERS) + len(UUID16_CORNERS),
+                                              "forms": "bytes, text (128-bit), int (16-bit)", "model_disagreements": len(bad_u)}
+    if (bad_u or bad_a or bad_s or bad_p or bad_b or bad_r or bad_d or bad_e or not proofs_ok) and not ctx.violations:
         first, what = None, None
-        if bad_a:
+        if bad_u:
+            first = {"op": "uuid", "hex": uuid_in[bad_u[0]].hex(), "impl": rx[bad_u[0]]}
+            what = "UUID constructor obligation: C15.Model.uuid_of_bytes vs whad UUID(bytes) (%d of %d values disagree)" % (len(bad_u), len(uterms))
+        elif bad_a:
             i = bad_a[0]
             first = {"op": "api", "x": api_x[i].hex(), "ops": api_in[i], "impl": ra[i]["steps"]}
             what = "correspondence C15.Model.api_run vs parse/edit/parse/serialise sequences on the real API (%d of %d disagree)" % (len(bad_a), len(aterms))
@@ -1022,6 +1085,14 @@ def replay(payload):
         print("AdvDataFieldList.from_bytes now gives:", {k: v for k, v in r.items() if k != "urls"})
         bad = ("exc" in r and r["exc"] not in ("AdvDataError", "AdvDataFieldListOverflow"))
         print("property holds on this case" if not bad else "property STILL violated: %s escapes" % r["exc"])
+        return 1 if bad else 0
+    if case.get("op") == "uuid":
+        r = C.run_impl("C15.py", {"uuid": [case["hex"]]})["uuid"][0]
+        b = bytes.fromhex(case["hex"])
+        want = [b.hex(), 1 if len(b) == 2 else 2]
+        print("UUID(...) now gives:", r, "expected", want)
+        bad = any(v != want for v in r.values())
+        print("obligation STILL broken" if bad else "obligation holds on this value")
         return 1 if bad else 0
     if case.get("op") == "api":
         ref = C.run_impl("C15.py", {"parse": [case["x"]]})["parse"][0]
